@@ -90,7 +90,7 @@ PROFILES = {
     "C11": profile(napps=(1, 2), names=2, literal_ids=1, autoping_p=0.2,
                    w={"restart": 2.5, "kill": 0.0, "adv_sweep": 3, "open": 9, "add": 9, "connect": 9, "reconnect": 5,
                       "adv_min": 3, "jump": 0, "dbfault": 0, "split": 2.0}),
-    "C14": profile(nsides=(2, 3), names=3, hold_p=0.0, w={"resend": 0.0, "third": 1.0, "close": 7, "release": 6, "claim": 8,
+    "C14": profile(nsides=(2, 4), names=3, hold_p=0.0, w={"resend": 0.0, "third": 3.0, "close": 7, "release": 6, "claim": 8,
                                                "open": 8, "restart": 0.5, "kill": 0.0}),
     "C18": profile(allow_list_p=0.5, w={"list": 6, "allocate": 6, "adv_long": 1.0}),
 }
